@@ -1,6 +1,6 @@
 # C14 - generator aggregator: union of all sources, per-source order preserved
 import re
-from ..core import Item, norm, relloc, live, calls, evs, Broken, value_origin, Tracer, fmt_trace, rooted, has_back_edge, cond_event, pos
+from ..core import Item, norm, relloc, live, calls, evs, Broken, value_origin, Tracer, fmt_trace, rooted, has_back_edge, cond_event, pos, find_ev
 from ..rules import *
 from . import C09
 
@@ -96,7 +96,10 @@ def startup(ctx, db):
     rid = ctx.rule('C14.charge-each-once', 'COUNT+GUARDED', 'start-up: the callback vector reserves the number of sources before the emplacing loop (callbacks are published by address and must not '
                    'move); each iteration emplaces one callback and charges exactly that one (cbs.back()); the controller is created with the source count', floor=2)
     fns = db.need(AGG)
-    T = htracer(db, maxvisit=2, limit=20000)
+    # a function the coroutine hands its callback vector to (by reference) is start-up code of the coroutine, whatever its size and wherever it
+    # lives (_details::charge_generators(cbs, queue, list__, arg) holds the whole emplace-and-charge loop): it is expanded in place like a helper
+    takes_cbs = lambda caller, ev, callee: caller.get('nname') == AGG and not callee.get('coroutine') and any((a.get('path') or '') == 'local:cbs' for a in (ev.get('args') or []))
+    T = htracer(db, extra=takes_cbs, maxvisit=2, limit=20000)
     seen_bad = None
     for f in fns:
         evl = list(f.events())
@@ -200,6 +203,30 @@ def _negated(path):
     return '(%s %s %s)' % (m.group(1), {'>': '<=', '>=': '<', '<': '>=', '<=': '>'}[m.group(2)], m.group(3))
 
 
+def _cond_path(tr, i):
+    """the condition of branch tr[i] with the value of a prefix increment / decrement spelled out: in `while (--n > 1)` the compared operand is
+    the lvalue the prefix operator yields, i.e. n as it is after the write (the facts show a load of an unnamed <UnaryOperator> directly behind
+    the write, at the same place; a postfix operator yields the old value as a prvalue and has no such load)"""
+    br = tr[i]
+    p = br.get('path') or ''
+    if '<UnaryOperator>' not in p:
+        return p
+    ce = cond_event(tr, i)
+    if ce is None or ce.k != 'cmp':
+        return p
+    for side in ('lhs', 'rhs'):
+        if ce.get(side) != '<UnaryOperator>' or ce.get(side + '_ev') is None:
+            continue
+        rd = find_ev(tr, i, ce[side + '_ev'], ce.get('fn'), ce.get('depth'))
+        if rd is None or rd.k != 'read' or rd.get('path') != '<UnaryOperator>':
+            continue
+        j = pos(tr, rd)
+        w = tr[j - 1] if j > 0 else None
+        if w is not None and w.k == 'write' and w.get('op') in ('++', '--') and w.get('loc') == rd.get('loc') and w.get('depth') == rd.get('depth') and w.get('path'):
+            p = p.replace('<UnaryOperator>', w['path'], 1)
+    return p
+
+
 def drain(ctx, db):
     rid = ctx.rule('C14.drain', 'PATHS+ORDER', 'the controller\'s destructor waits for every outstanding asynchronous source: a loop whose only exit is the test that at most one source is counted, each '
                    'iteration blocks on one completion and decrements the count by one; the controller is declared after the queue and the callbacks (destroyed before them)', floor=2)
@@ -212,17 +239,18 @@ def drain(ctx, db):
             # every test of the destructor itself (a predicate helper is read through to what it returned) says "more than one source is counted"
             nb = 0
             for tr in T.traces(f):
-                for it in tr:
+                for i, it in enumerate(tr):
                     if it.k == 'branch':
                         nb += 1
-                        if not (_more_than_one(it.path or '') or _more_than_one(_negated(it.path or ''))):      # while (count > 1) ... / if (count <= 1) break;
+                        cp = _cond_path(tr, i)
+                        if not (_more_than_one(cp) or _more_than_one(_negated(cp))):      # while (count > 1) ... / if (count <= 1) break; / do ... while (--count > 1);
                             bad = bad or 'the drain loop has an exit that does not depend on the number of outstanding sources only (%s): a pending source may resume into a destroyed aggregate' % (it.path or it.get('opath'))
             if nb == 0:
                 bad = 'the destructor does not test the number of outstanding sources'
 
         if not bad:
             for tr in [t for t in T.traces(f) if live(t)]:
-                loops = [i for i, it in enumerate(tr) if it.k == 'branch' and (it.term in ('WhileStmt', 'ForStmt', 'DoStmt') or _more_than_one(it.path or '') or _more_than_one(_negated(it.path or '')))]
+                loops = [i for i, it in enumerate(tr) if it.k == 'branch' and (it.term in ('WhileStmt', 'ForStmt', 'DoStmt') or _more_than_one(_cond_path(tr, i)) or _more_than_one(_negated(_cond_path(tr, i))))]
                 for a in range(len(loops) - 1):
                     seg = tr[loops[a]:loops[a + 1]]
                     pops = sum(1 for it in seg if it.k == 'call' and norm(it.get('callee')) == 'cocls::queue::pop')
